@@ -55,6 +55,12 @@ type holdTrack struct {
 	shortened bool      // the last renewal moved the deadline earlier (C06 then allows 10 s of slack)
 	everMs    bool      // some terms of this hold were in milliseconds (it sat in the millisecond wheel)
 	renewed   bool
+	// keptRef/keptE/keptFlag: the terms the server keeps when a re-lock or update carries the
+	// unlimited-expiry flag with Expried 0xffff (lock.go UpdateLockedLock leaves the deadline alone)
+	kept      bool
+	keptRef   time.Time
+	keptE     uint16
+	keptFlag  uint16
 }
 
 type keyTrack struct {
@@ -703,6 +709,12 @@ func (ms *monitorState) apply(kt *keyTrack, ac *action, o *Outcome, after *MKey,
 				class := "unlimited_expired"
 				if ht != nil && ht.everMs && ht.renewed {
 					class = "expired_early_ms_wheel_renewal"
+				} else if ht != nil && ht.kept {
+					// F73: the renewal with flag 0x4000 and Expried 0xffff left the old deadline in force
+					class = "unlimited_65535_renewal_kept_old_deadline"
+					if el, e := now.Sub(ht.keptRef), expiryDur(ht.keptE, ht.keptFlag); el+msSlack(ht.keptFlag&efMs != 0) < e {
+						class = "expired_early"
+					}
 				}
 				ms.violate("C06", class, "key %d: hold l%d with the unlimited-expiry flag was ended by time (millisecond terms at some point: %v, renewed: %v)", keyIndex(kt.id.key), lidIndex(h.Lid), ht != nil && ht.everMs, ht != nil && ht.renewed)
 			} else if ht != nil {
@@ -783,6 +795,13 @@ func (ms *monitorState) bookHolds(kt *keyTrack, after *MKey, ptrs []*Lock, now t
 			nt := &holdTrack{ref: now, since: old.since, everMs: old.everMs || h.EFlag&efMs != 0, renewed: true, shortened: old.shortened}
 			if h.EFlag&efUnlim == 0 && (prev.EFlag&efUnlim != 0 || now.Add(expiryDur(h.Expried, h.EFlag)).Before(old.ref.Add(expiryDur(prev.Expried, prev.EFlag)))) {
 				nt.shortened = true
+			}
+			if h.EFlag&efUnlim != 0 && h.Expried == 0xffff {
+				if old.kept {
+					nt.kept, nt.keptRef, nt.keptE, nt.keptFlag = true, old.keptRef, old.keptE, old.keptFlag
+				} else if prev.EFlag&efUnlim == 0 {
+					nt.kept, nt.keptRef, nt.keptE, nt.keptFlag = true, old.ref, prev.Expried, prev.EFlag
+				}
 			}
 			newHolds[p] = nt
 		default:
